@@ -354,6 +354,7 @@ func runPriQ(c *Ctx, prop string) {
 		}, cfg, nil)
 		c.check(c.immutableField(capacity), "C12.priq", "PriQueue.capacity immutable", capacity.Pos(), "", "capacity is written after construction")
 		checkPriLess(c, rel, seq, entry)
+		checkPriHeapIface(c, rel)
 	}
 	isEntriesAddr := func(s *Sym) bool { return s.strip().isFieldAddrOf(entries) }
 	if prop == "C12" {
@@ -697,3 +698,92 @@ func checkPriLess(c *Ctx, rel string, seq, entry *types.Var) {
 }
 
 var _ = strings.HasPrefix
+
+// checkPriHeapIface: container/heap orders PriQueue.entries through EntryList's Len/Swap/Push/Pop; the heap
+// algorithms are only correct if Swap exchanges exactly the two positions, Push appends the element, Pop removes
+// and returns the last element, and Len is the slice length.
+func checkPriHeapIface(c *Ctx, rel string) {
+	get := func(name string) ([]*Trace, *ssa.Function) {
+		fn := c.mustFn(rel, name)
+		if fn == nil {
+			return nil, nil
+		}
+		ts, _ := c.Trace(fn, TraceConfig{})
+		return ts, fn
+	}
+	one := func(ts []*Trace) *Trace {
+		var out *Trace
+		for _, t := range ts {
+			if t.End == EndReturn {
+				if out != nil {
+					return nil
+				}
+				out = t
+			}
+		}
+		return out
+	}
+	// Swap
+	if ts, fn := get("(EntryList).Swap"); fn != nil {
+		good := false
+		if t := one(ts); t != nil {
+			i, j := "$"+fn.Params[1].Name(), "$"+fn.Params[2].Name()
+			st := map[string]string{} // index key -> index key of the value's origin cell
+			for _, e := range t.Events {
+				if e.Kind == EvStore && e.Addr.Kind == KIndexAddr && e.Val.Kind == KInit && e.Val.Args[0].Kind == KIndexAddr {
+					st[e.Addr.Args[1].Key()] = e.Val.Args[0].Args[1].Key()
+				}
+			}
+			good = len(st) == 2 && st[i] == j && st[j] == i
+		}
+		c.check(good, "C12.priq", "(EntryList).Swap", fn.Pos(), "e[i], e[j] = e[j], e[i]", "Swap does not exchange exactly the elements at its two positions: container/heap's sift operations no longer order the entries, a lower priority (or a later arrival) can be popped first")
+	}
+	// Push
+	if ts, fn := get("(*EntryList).Push"); fn != nil {
+		good := false
+		if t := one(ts); t != nil {
+			x := "$" + fn.Params[1].Name()
+			for _, e := range t.Events {
+				if e.Kind == EvStore && e.Addr.Key() == "$"+fn.Params[0].Name() && e.Val.Kind == KOp && e.Val.Name == "append" && e.Val.Args[0].Key() == "*$"+fn.Params[0].Name() {
+					if r := e.Val.Args[1].root(); r != nil && r.Kind == KAlloc {
+						for _, y := range t.Events {
+							if y.Kind == EvStore && y.Addr.root().Key() == r.Key() && y.Val.mentions(x) {
+								good = true
+							}
+						}
+					}
+				}
+			}
+		}
+		c.check(good, "C12.priq", "(*EntryList).Push", fn.Pos(), "*e = append(*e, x)", "Push does not append its argument to the entries: a pushed item is lost or another one duplicated")
+	}
+	// Pop
+	if ts, fn := get("(*EntryList).Pop"); fn != nil {
+		good := false
+		if t := one(ts); t != nil {
+			e0 := "*$" + fn.Params[0].Name()
+			lenE := lf(&Sym{Kind: KOp, Name: "len", Args: []*Sym{{Kind: KInit, Args: []*Sym{{Kind: KParam, Ref: fn.Params[0], Typ: fn.Params[0].Type()}}}}})
+			last := lenE.add(lfConst(1), -1)
+			r := t.Ret[0].strip()
+			retOK := r.Kind == KInit && r.Args[0].Kind == KIndexAddr && r.Args[0].Args[0].Key() == e0 && lf(r.Args[0].Args[1]).equal(last)
+			shrink := false
+			for _, e := range t.Events {
+				if e.Kind == EvStore && e.Addr.Key() == "$"+fn.Params[0].Name() {
+					v := e.Val
+					shrink = v.Kind == KOp && v.Name == "slice" && v.Args[0].Key() == e0 && v.Args[1].Name == "none" && lf(v.Args[2]).equal(last)
+				}
+			}
+			good = retOK && shrink
+		}
+		c.check(good, "C12.priq", "(*EntryList).Pop", fn.Pos(), "returns and removes the last element", "Pop does not return the last element and shrink the slice by one: heap.Pop (which has moved the minimum to the end) hands out the wrong entry or keeps it queued")
+	}
+	// Len
+	if ts, fn := get("(EntryList).Len"); fn != nil {
+		good := false
+		if t := one(ts); t != nil {
+			r := t.Ret[0]
+			good = r.Kind == KOp && r.Name == "len" && r.Args[0].Key() == "$"+fn.Params[0].Name()
+		}
+		c.check(good, "C12.priq", "(EntryList).Len", fn.Pos(), "len(e)", "Len is not the number of entries: container/heap sifts over the wrong range")
+	}
+}
